@@ -109,6 +109,42 @@ def run(R, P, rule):
             else:
                 R.ob(rule, "%s: on each of its %d pieces over 1970..4095 the offset is the list's (steps at the listed instants, the last value "
                      "for ever after)" % (fname, pieces), True)
+        # ---- (a') the offset of an instant does not depend on which instants were asked before (a routine may remember its last
+        #          table position in a variable with static storage: the remembered interval must be the table's own)
+        for fname, shift in (("__tai_offs", 0), ("__gps_offs", 19)):
+            fn = tz.func(fname)
+            bad = []
+            marks = [t for (t, c) in lst]
+            for i, ti in enumerate(marks):
+                probes = [ti - 2, ti - 1, ti, ti + 1]
+                primes = sorted({q for j in (i - 1, i, i + 1) if 0 <= j < len(marks) for q in (marks[j] - 1, marks[j], marks[j] + 1, marks[j] + 40)}
+                                | {0, marks[-1] + 10 ** 8})
+                fresh = {}
+                for p_ in probes:
+                    fo = fold.Folder(fn, calls={}, inline=True, max_steps=400000)
+                    fo._tabs = tabs
+                    fresh[p_] = fo.run([p_])
+                for q in primes:
+                    for p_ in probes:
+                        if p_ < 0 or q < 0:
+                            continue
+                        st = {}
+                        for arg in (q, p_):
+                            fo = fold.Folder(fn, calls={}, inline=True, max_steps=400000)
+                            fo._tabs = tabs
+                            fo.statics = st
+                            v = fo.run([arg])
+                        n += 1
+                        if v != fresh[p_]:
+                            bad.append((p_, q, v, fresh[p_]))
+            if bad:
+                p_, q, got, exp = bad[0]
+                R.finding(rule, fn, "%s asked twice" % fname, "%d (earlier instant, instant) pairs give another offset than the instant alone; first: "
+                          "the offset at %s (%d) is %s, but %s when %s (%d) was asked before: what the routine remembers between calls "
+                          "does not match its table" % (len(bad), datetime.datetime(1970, 1, 1) + datetime.timedelta(seconds=p_), p_, exp, got,
+                                                        datetime.datetime(1970, 1, 1) + datetime.timedelta(seconds=q), q))
+            else:
+                R.ob(rule, "%s: around every listed instant the offset is the same whichever neighbouring instant was asked before" % fname, True)
         # ---- (b) adding real seconds
         E = {k: dtu.enum_value(k) for k in ("DT_YMD", "DT_HMS", "DT_DURS")}
         fadd = dtu.func("dt_dtadd")
@@ -167,6 +203,40 @@ def run(R, P, rule):
                       "gives %s, %s is that many SI seconds later" % (">= " if len(badb) >= 300 else "", len(badb), day, t, got, exp))
         else:
             R.ob(rule, "adding N real seconds from %d starts around inserted leap seconds, N in +-45: exactly N SI seconds later, through 23:59:60" % len(starts), True)
+        # ---- (b') long additions: from next to one inserted second to next to another one, several inserted seconds in between
+        badl = []
+        marks = steps[-4:] + steps[:2]
+        nl = 0
+        for (ti, ci) in marks:
+            for off in (-9, 0, 1):
+                d = datetime.datetime(1970, 1, 1) + datetime.timedelta(seconds=ti + off)
+                src = {"typ": E["DT_YMD"], "sandwich": 1, "d.typ": E["DT_YMD"], "d.ymd.y": d.year, "d.ymd.m": d.month, "d.ymd.d": d.day,
+                       "t.typ": E["DT_HMS"], "t.hms.h": d.hour, "t.hms.m": d.minute, "t.hms.s": d.second, "t.hms.ns": 0}
+                for (tj, cj) in marks:
+                    if tj == ti:
+                        continue
+                    for k in (-3, -2, -1, 0, 1, 2):
+                        # SI count of (the inserted second + k): tj - 1 is 23:59:59, the inserted second follows it
+                        target = (tj - 1) + tai(tj - 1) + 1 + k
+                        cnt = target - si(d)
+                        if not (-2 ** 31 < cnt < 2 ** 31):
+                            continue
+                        fo = fold.Folder(fadd, calls={}, inline=True, max_steps=3000000)
+                        fo._tabs = tabs
+                        r = fo.run([dict(src), {"durtyp": E["DT_DURS"], "dv": cnt, "neg": 0, "tai": 1}])
+                        n += 1
+                        nl += 1
+                        got = tuple(r.get(f_) for f_ in ("d.ymd.y", "d.ymd.m", "d.ymd.d", "t.hms.h", "t.hms.m", "t.hms.s"))
+                        exp = from_si(target)
+                        if got != exp:
+                            badl.append((d.isoformat(), cnt, str(got), str(exp)))
+        if badl:
+            day, t, got, exp = sorted(badl)[0]
+            R.finding(rule, fadd, "adding real seconds across several inserted seconds", "%d of %d (start, count) points differ; first: %s %+d real "
+                      "seconds gives %s, %s is that many SI seconds later" % (len(badl), nl, day, t, got, exp))
+        else:
+            R.ob(rule, "adding real seconds from next to one inserted second to within 3 s of another one (%d spans, several inserted seconds in "
+                 "between, both directions): exactly N SI seconds later" % nl, True)
         # ---- (c) differences in real seconds through the ddiff pipeline
         calls = dict(fmtdecode.LIBC)
 
@@ -194,6 +264,8 @@ def run(R, P, rule):
             d = datetime.datetime(1970, 1, 1) + datetime.timedelta(seconds=ti - 1)
             pts.append((d.year, d.month, d.day, 23, 59, 60))
         pts += [(2012, 3, 1, 0, 0, 0), (2012, 3, 1, 0, 0, 10), (2013, 1, 1, 12, 0, 0)]
+        # far apart: the whole supported range lies between the first and the last of these
+        pts += [(1970, 1, 1, 0, 0, 0), (2050, 1, 1, 0, 0, 0), (2200, 6, 30, 23, 59, 59), (4095, 12, 31, 23, 59, 59)]
         badc = []
         fmt = "%rS"
         f_ = call("determine_durfmt", cstr(fmt))
